@@ -332,7 +332,7 @@ class RaggedArray(IndexableArray, np.lib.mixins.NDArrayOperatorsMixin):
                   for i in inputs]
         result_type = np.result_type(*(i.dtype if hasattr(i, "dtype") else i for i in inputs))
         for input in inputs:
-            if isinstance(input, Number) or (isinstance(input, np.ndarray) and input.ndim == 0):
+            if isinstance(input, (Number, np.generic)) or (isinstance(input, np.ndarray) and input.ndim == 0):
                 datas.append(input)
             elif isinstance(input, np.ndarray) or isinstance(input, list):
                 broadcasted = self._broadcast_rows(input, dtype=result_type)
